@@ -360,6 +360,17 @@ class Srv:
             res.ok("R9.task", "run|stop", fl(stops[0].sp), "PolicyCmd::Stop is sent on every path after polytune::mpc completes")
         else:
             res.bad("R9.task", "run|stop", "a path of the MPC task ends without sending PolicyCmd::Stop (state machine and permit linger)", fl(mpc.sp))
+        self.permit_task_rule(h, fut, (mpc_k, mpc_b), mpc)
+
+    def permit_task_rule(self, h, fut=None, mpcf=None, mpc=None):
+        res = self.res
+        if mpcf is None:
+            fut, mpcf = self.task_bodies(h)
+            if mpcf is None:
+                res.bad("R9.permit", "run|permit-in-mpc-future", "cannot locate the future that awaits polytune::mpc")
+                return
+            mpc = [e for e in h.events[mpcf[0]] if not e.nested and e.kind == "mpc"][0]
+        mpc_k, mpc_b = mpcf
         # permit lives inside the mpc future
         has_permit = "permit" in mpc_b.upvars
         moved = any(l["name"] == "_permit" for l in mpc_b.locals)
@@ -370,8 +381,29 @@ class Srv:
             for bi, t in bb.calls():
                 if any(n.endswith("mem::drop") for n in callee_names(t)) and t["args"] and "OwnedSemaphorePermit" in (t["args"][0]["p"]["ty"] if t["args"][0]["k"] != "const" else ""):
                     dropped.append((bb, bi))
-        if has_permit and moved and not dropped:
-            res.ok("R9.permit", "run|permit-in-mpc-future", fl(mpc.sp), "the permit is captured by and bound inside the future that awaits polytune::mpc")
+        # the permit outlives everything the task does for this policy: after any (non-unwinding) drop of
+        # the bound permit no result delivery and no Stop command is still to come
+        early = None
+        pl = [i for i, l in enumerate(mpc_b.locals) if "OwnedSemaphorePermit" in l["ty"] and l["name"]]
+        mevs = [e for e in h.events[mpc_k] if not e.nested]
+        later = {e.block for e in mevs if (e.kind == "client" and e.detail == "output") or (e.kind == "self_cmd" and e.detail == "Stop")}
+        live = mpc_b.live_blocks()
+        for bi, blk in enumerate(mpc_b.blocks):
+            t = blk["t"]
+            if t["k"] == "drop" and bi in live and not blk.get("cleanup") and t["p"]["l"] in pl and not t["p"]["pr"]:
+                nxt = t.get("t")
+                if nxt is not None and (mpc_b.reachable_from(nxt) & later):
+                    early = (bi, mpc_b.locals[t["p"]["l"]]["name"])
+        if fut and has_permit and not early:
+            fouts = [e for e in h.events[fut[0]] if not e.nested and ((e.kind == "client" and e.detail == "output") or (e.kind == "self_cmd" and e.detail == "Stop"))]
+            if fouts:
+                early = (fouts[0].block, "permit (owned by the inner future, which has completed by then)")
+                res.bad("R9.permit", "run|permit-in-mpc-future", "the task delivers its result / sends Stop after the future that owns the concurrency permit has completed: the permit is released while this policy is still alive (more policies in flight than the configured concurrency)", fl(fouts[0].sp))
+                return
+        if has_permit and moved and not dropped and early:
+            res.bad("R9.permit", "run|permit-in-mpc-future", "the concurrency permit `%s` is released before the task has delivered its result and sent Stop: the next queued policy of this leader starts while this one is still alive (more policies in flight than the configured concurrency)" % early[1], where(mpc_b, early[0]))
+        elif has_permit and moved and not dropped:
+            res.ok("R9.permit", "run|permit-in-mpc-future", fl(mpc.sp), "the permit is captured by and bound inside the future that awaits polytune::mpc, and is released only after the result delivery and Stop")
         else:
             res.bad("R9.permit", "run|permit-in-mpc-future", "the concurrency permit is not owned by the future that awaits polytune::mpc (captured=%s bound=%s explicit drop=%s)" % (has_permit, moved, bool(dropped)), fl(mpc.sp))
 
@@ -1198,6 +1230,8 @@ class Srv:
         for name, e in takes:
             if name != "run":
                 res.bad("R9.permit", "take|%s" % name, "the permit is taken out of the actor in %s" % name, fl(e.sp))
+        if hr:
+            self.permit_task_rule(hr)
         if hr:
             k, b = hr.user
             ent, ex = hr.arm("Running")
